@@ -55,12 +55,19 @@ class _Tty(io.StringIO):
         pass
 
 
-def run_main(argv, cwd):
-    """argv: arguments after the program name; file arguments are relative to cwd."""
+def run_main(argv, cwd, stdin_bytes=None, env=None):
+    """argv: arguments after the program name; file arguments are relative to cwd.  stdin_bytes: what the process
+    would receive on standard input (for a `-` argument); env: environment variables set for the run only."""
     import graphtage.__main__ as gm
     _patch_loaders()
     del _LOADS[:]
     old = (sys.stdout, sys.stderr, os.getcwd())
+    old_stdin = sys.stdin
+    old_env = {k: os.environ.get(k) for k in (env or {})}
+    if stdin_bytes is not None:
+        sys.stdin = io.TextIOWrapper(io.BytesIO(stdin_bytes), encoding="utf-8", errors="surrogateescape")
+    for k, v in (env or {}).items():
+        os.environ[k] = v
     out, err = _Tty(), _Tty()
     rc, exc, msg = None, None, None
     root = logging.getLogger()
@@ -78,6 +85,12 @@ def run_main(argv, cwd):
             msg = str(e)[:300]
     finally:
         sys.stdout, sys.stderr = old[0], old[1]
+        sys.stdin = old_stdin
+        for k, v in old_env.items():
+            if v is None:
+                os.environ.pop(k, None)
+            else:
+                os.environ[k] = v
         os.chdir(old[2])
         for h in list(root.handlers):
             if h not in old_handlers:
